@@ -26,6 +26,7 @@ import (
 	"github.com/dappledger/AnnChain/gemmill/mempool"
 	"github.com/dappledger/AnnChain/gemmill/p2p"
 	"github.com/dappledger/AnnChain/gemmill/state"
+	"github.com/dappledger/AnnChain/gemmill/trace"
 	"github.com/dappledger/AnnChain/gemmill/types"
 )
 
@@ -87,6 +88,8 @@ func buildFamilies() []*family {
 		func(bz []byte) (byte, interface{}, error) { return mempool.DecodeMessage(bz) }, 1048576)
 	wrapper("p2p.PexMessage", struct{ p2p.PexMessage }{}, "PexMessage",
 		func(bz []byte) (byte, interface{}, error) { return p2p.DecodeMessage(bz) }, 1048576)
+	wrapper("trace.Message", struct{ trace.Message }{}, "Message",
+		func(bz []byte) (byte, interface{}, error) { return trace.DecodeMessage(bz) }, 1048576)
 	wrapper("pbft.WALMessage", struct{ pbft.WALMessage }{}, "WALMessage", nil, 0)
 	wrapper("crypto.Signature", struct{ crypto.Signature }{}, "Signature", nil, 0)
 	wrapper("crypto.PubKey", struct{ crypto.PubKey }{}, "PubKey", nil, 0)
@@ -271,6 +274,9 @@ type checker struct {
 	classes *tally
 	samples *core.Sampler
 
+	pendMu sync.Mutex
+	pend   map[string]*pending
+
 	memViolations   int64
 	makeslicePanics int64 // allocation-size panics of a decoder that was given a finite limit
 	notes           *tally
@@ -308,8 +314,58 @@ func (t *tally) Map() map[string]int {
 	return o
 }
 
+// report buffers counterexamples: per signature the smallest case (shortest
+// JSON, then lexicographic) is kept, so that the recorded representative does
+// not depend on goroutine scheduling; flush hands them to core in sorted order.
+type pending struct {
+	sig    map[string]string
+	k      kase
+	detail string
+	key    string
+	n      int
+}
+
 func (c *checker) report(sig map[string]string, k kase, detail string) {
-	c.run.Report(sig, k, detail)
+	kb, _ := json.Marshal(k)
+	key := fmt.Sprintf("%08d%s", len(kb), kb)
+	ks := make([]string, 0, len(sig))
+	for x := range sig {
+		ks = append(ks, x)
+	}
+	sortStrings(ks)
+	var sk strings.Builder
+	for _, x := range ks {
+		sk.WriteString(x + "=" + sig[x] + ";")
+	}
+	c.pendMu.Lock()
+	defer c.pendMu.Unlock()
+	if c.pend == nil {
+		c.pend = map[string]*pending{}
+	}
+	p := c.pend[sk.String()]
+	if p == nil {
+		c.pend[sk.String()] = &pending{sig, k, detail, key, 1}
+		return
+	}
+	p.n++
+	if key < p.key {
+		p.sig, p.k, p.detail, p.key = sig, k, detail, key
+	}
+}
+
+func (c *checker) flush() {
+	c.pendMu.Lock()
+	defer c.pendMu.Unlock()
+	var sks []string
+	for sk := range c.pend {
+		sks = append(sks, sk)
+	}
+	sortStrings(sks)
+	for _, sk := range sks {
+		p := c.pend[sk]
+		c.run.Report(p.sig, p.k, fmt.Sprintf("%s  [%d cases of this class]", p.detail, p.n))
+	}
+	c.pend = nil
 }
 
 func (c *checker) panicSig(o outcome, inputLen int, bombLimit0 bool) map[string]string {
@@ -479,8 +535,44 @@ func showLeaf(v reflect.Value) string {
 
 // offer runs one byte string through one entry point and applies the
 // no-panic and n<=limit clauses.  Returns the outcome class.
-func (c *checker) offer(f *family, entry string, in []byte, lmt int, mut string) string {
-	atomic.AddInt64(&c.evals, 1)
+const (
+	ocError = iota
+	ocValue
+	ocPanic
+	ocNExceeds
+)
+
+var ocNames = []string{"error", "value", "panic", "n-exceeds-limit"}
+
+// ocount is a per-worker histogram: key (family/entry) -> outcome counts.
+type ocount map[string]*[4]int
+
+func (m ocount) add(key string, oc int) {
+	p := m[key]
+	if p == nil {
+		p = new([4]int)
+		m[key] = p
+	}
+	p[oc]++
+}
+
+// flush adds the histogram to the shared classes and returns the total.
+func (m ocount) flush(c *checker, prefix string) int {
+	tot := 0
+	for k, p := range m {
+		for i, n := range p {
+			if n > 0 {
+				c.classes.AddN(prefix+k+ocNames[i], n)
+				tot += n
+			}
+		}
+	}
+	return tot
+}
+
+func (c *checker) offer(f *family, entry string, in []byte, lmt int, mut string) int {
+	// c.evals is bumped by the callers in batches (a shared counter touched
+	// ten million times by sixteen workers is a bottleneck)
 	var o outcome
 	switch entry {
 	case "ReadBinary":
@@ -502,18 +594,18 @@ func (c *checker) offer(f *family, entry string, in []byte, lmt int, mut string)
 		k := mk()
 		sig := c.panicSig(o, len(in), strings.HasPrefix(mut, "bomb") && (lmt == 0))
 		c.report(sig, k, fmt.Sprintf("%s into %s (limit %d) panics on %d input bytes %x [%s]: %s", entry, f.Name, lmt, len(in), clip(in), mut, o.PanicVal))
-		return "panic"
+		return ocPanic
 	}
 	if entry == "ReadBinary" && lmt != 0 && o.Err == nil && o.N > lmt {
 		k := mk()
 		c.report(map[string]string{"phase": "decode", "kind": "n-exceeds-limit", "entry": entry}, k,
 			fmt.Sprintf("%s into %s reported n=%d > limit %d with no error", entry, f.Name, o.N, lmt))
-		return "n-exceeds-limit"
+		return ocNExceeds
 	}
 	if o.Err != nil {
-		return "error"
+		return ocError
 	}
-	return "value"
+	return ocValue
 }
 
 func limitsFor(n int) []int {
@@ -569,20 +661,19 @@ func (c *checker) shortStrings() {
 				inputs = append(inputs, []byte{byte(j.b0), byte(b)})
 			}
 		}
-		local := map[string]int{}
+		local := ocount{}
+		kRB, kRBB, kJ, kM := j.f.Name+"/ReadBinary/", j.f.Name+"/ReadBinaryBytes/", j.f.Name+"/ReadJSON/", j.f.Name+"/DecodeMessage/"
 		for _, in := range inputs {
 			for _, lmt := range limitsFor(len(in)) {
-				local[j.f.Name+"/ReadBinary/"+c.offer(j.f, "ReadBinary", in, lmt, "short")]++
+				local.add(kRB, c.offer(j.f, "ReadBinary", in, lmt, "short"))
 			}
-			local[j.f.Name+"/ReadBinaryBytes/"+c.offer(j.f, "ReadBinaryBytes", in, 0, "short")]++
-			local[j.f.Name+"/ReadJSON/"+c.offer(j.f, "ReadJSON", in, 0, "short")]++
+			local.add(kRBB, c.offer(j.f, "ReadBinaryBytes", in, 0, "short"))
+			local.add(kJ, c.offer(j.f, "ReadJSON", in, 0, "short"))
 			if j.f.DecodeMsg != nil {
-				local[j.f.Name+"/DecodeMessage/"+c.offer(j.f, "DecodeMessage", in, j.f.MsgLimit, "short")]++
+				local.add(kM, c.offer(j.f, "DecodeMessage", in, j.f.MsgLimit, "short"))
 			}
 		}
-		for k, n := range local {
-			c.classes.AddN("short/"+k, n)
-		}
+		atomic.AddInt64(&c.evals, int64(local.flush(c, "short/")))
 	})
 }
 
@@ -590,7 +681,8 @@ var substBytes = []byte{0x00, 0x01, 0x7f, 0x80, 0xff}
 
 // mutateBinary offers every truncation and every single-byte substitution of
 // one binary encoding, with every finite limit around its length.
-func (c *checker) mutateBinary(f *family, enc []byte, allLimits bool, local map[string]int) {
+func (c *checker) mutateBinary(f *family, enc []byte, allLimits bool, local ocount) {
+	kRB, kM := f.Name+"/ReadBinary/", f.Name+"/DecodeMessage/"
 	run := func(in []byte, mut string) {
 		lims := finiteLimitsFor(len(in))
 		if !allLimits {
@@ -600,10 +692,10 @@ func (c *checker) mutateBinary(f *family, enc []byte, allLimits bool, local map[
 			}
 		}
 		for _, lmt := range lims {
-			local[f.Name+"/ReadBinary/"+c.offer(f, "ReadBinary", in, lmt, mut)]++
+			local.add(kRB, c.offer(f, "ReadBinary", in, lmt, mut))
 		}
 		if f.DecodeMsg != nil {
-			local[f.Name+"/DecodeMessage/"+c.offer(f, "DecodeMessage", in, f.MsgLimit, mut)]++
+			local.add(kM, c.offer(f, "DecodeMessage", in, f.MsgLimit, mut))
 		}
 	}
 	for k := 0; k < len(enc); k++ {
@@ -624,9 +716,10 @@ func (c *checker) mutateBinary(f *family, enc []byte, allLimits bool, local map[
 
 // mutateJSON offers every truncation, every single-byte substitution and every
 // replacement of one JSON node by a value of another JSON type.
-func (c *checker) mutateJSON(f *family, enc []byte, local map[string]int) {
+func (c *checker) mutateJSON(f *family, enc []byte, local ocount) {
+	kJ := f.Name + "/ReadJSON/"
 	run := func(in []byte, mut string) {
-		local[f.Name+"/ReadJSON/"+c.offer(f, "ReadJSON", in, 0, mut)]++
+		local.add(kJ, c.offer(f, "ReadJSON", in, 0, mut))
 	}
 	for k := 0; k < len(enc); k++ {
 		run(enc[:k], fmt.Sprintf("truncate@%d", k))
@@ -900,16 +993,35 @@ func memBound(lmt int) uint64 {
 // against 64·limit + 1 MiB.
 func (c *checker) measure(cases []memCase) {
 	for _, mc := range cases {
-		if atomic.LoadInt64(&c.memViolations) >= 3 && strings.HasPrefix(mc.mut, "bomb-2p31") {
-			c.notes.Add("skipped-2p31-bombs-after-3-memory-violations")
+		if atomic.LoadInt64(&c.memViolations) >= 1 && strings.HasPrefix(mc.mut, "bomb-2p31") {
+			// every further one would allocate another 2 GiB
+			c.notes.Add("skipped-2p31-bombs-after-first-memory-violation")
 			continue
 		}
-		before := allocCounter()
+		// the 2^31 bombs are measured with runtime.MemStats right away, so
+		// that an offending decode (2 GiB) never has to be repeated
+		useMS := strings.HasPrefix(mc.mut, "bomb-2p31")
+		var before, delta uint64
+		if useMS {
+			before = totalAlloc()
+		} else {
+			before = allocCounter()
+		}
 		cls := c.offer(mc.f, mc.entry, mc.in, mc.lmt, mc.mut)
-		delta := allocCounter() - before
-		c.classes.Add("mem/" + mc.f.Name + "/" + mc.entry + "/" + cls)
+		if useMS {
+			delta = totalAlloc() - before
+		} else {
+			delta = allocCounter() - before
+		}
+		c.classes.Add("mem/" + mc.f.Name + "/" + mc.entry + "/" + ocNames[cls])
+		atomic.AddInt64(&c.evals, 1)
 		if delta > memBound(mc.lmt) {
-			c.measureOne(mc)
+			if useMS && delta > memBound(mc.lmt)+(1<<28) {
+				c.memViolation(mc, delta)
+				debug.FreeOSMemory()
+			} else {
+				c.measureOne(mc)
+			}
 		}
 	}
 }
@@ -926,7 +1038,15 @@ func (c *checker) measureOne(mc memCase) bool {
 			return true
 		}
 		debug.FreeOSMemory()
+		if delta > memBound(mc.lmt)+(1<<28) {
+			break // far beyond anything a background allocation could explain
+		}
 	}
+	c.memViolation(mc, delta)
+	return false
+}
+
+func (c *checker) memViolation(mc memCase, delta uint64) {
 	atomic.AddInt64(&c.memViolations, 1)
 	k := kase{Phase: "decode-mem", Family: mc.f.Name, Entry: mc.entry, Limit: mc.lmt, Hex: hex.EncodeToString(mc.in), Mut: mc.mut}
 	kind := "other"
@@ -935,7 +1055,6 @@ func (c *checker) measureOne(mc memCase) bool {
 	}
 	c.report(map[string]string{"phase": "decode", "kind": "allocates-beyond-limit", "entry": mc.entry, "shape": kind}, k,
 		fmt.Sprintf("%s into %s with limit %d allocated %d bytes (> 64*limit + 1 MiB = %d) on %d input bytes %x [%s]", mc.entry, mc.f.Name, mc.lmt, delta, memBound(mc.lmt), len(mc.in), clip(mc.in), mc.mut))
-	return false
 }
 
 // bombCases builds, for one grid value, the inputs with each length prefix
